@@ -158,6 +158,7 @@ fn main() {
         "C07" => { vh::c07::check(&rep); rep.finish(vh::c07::RULE, vh::c07::ASSUME, vh::c07::SITUATIONS) }
         "C09" => { vh::c09::check(&rep); rep.finish(vh::c09::RULE, vh::c09::ASSUME, vh::c09::SITUATIONS) }
         "C08" => { vh::c08::check(&rep); rep.finish(vh::c08::RULE, vh::c08::ASSUME, vh::c08::SITUATIONS) }
+        "C16" => { vh::c16::check(&rep); rep.finish(vh::c16::RULE, vh::c16::ASSUME, vh::c16::SITUATIONS) }
         _ => { eprintln!("unknown property {}", id); 2 }
     };
     std::process::exit(code);
